@@ -76,5 +76,21 @@ TEXT = {
    text="Lean theorems: maxHash = 3^243, uint64Radix = 3^40; toInt = base-3 value + 1 with no uint64 overflow; Score = min(floor(floor(3^243/h)/len), 2^64-1); sufficientTrailingZeros = least s with 3^s >= len*t (wrapping loop = exact loop); "
         "for ALL 64-lane plane states and 8 <= len*t < 2^64: a lane returned by checkStateTrits has floor(3^243/h) >= len*t (hence Score >= t) and a lane with floor(3^243/h) > len*t is never passed over; single-worker mining returns the first accepting block.",
    note="Trusted: Lean kernel; extractor+harness; BLAKE2b and iota.go curl/bct (external; re-scored through an independent Lean pipeline); math/big. Observation outside the property's quantifier: the overflow guard of sufficientTrailingZeros admits products in [2^64, 2^64+len-2] (documented in DESIGN.md)."),
+ "C02": dict(ref="DESIGN.md §5 C02/C08",
+   technique="Lean 4 proof of the repository's derivation logic for every curve value (retry loops with fuel = SLIP-0010's first-valid-candidate sequence; CKD inputs; path concatenation; error cases), primitives as parameters; source-snapshot tie; differential correspondence incl. pluggable high-rejection curves",
+   text="Lean theorems for every Curve value: NewMasterKey = first valid candidate of I0 = HMAC(curve key, S), I(n+1) = HMAC(curve key, In) (iff characterisation); CKD uses 0x00||ser256(k)||ser32(i) resp. serP(point(k))||ser32(i); child key = Shift(parent, IL), chain code IR, "
+        "retry with HMAC(chain, 0x01||IR||ser32(i)) on ErrInvalidKey only; any other curve error is returned by both loops; derive(p++[i]) = derive(p) then child i; hardened child of a public key and non-hardened child on ed25519 fail; fingerprint formula. "
+        "Byte-exact agreement with SLIP-0010 on the three real curves comes from the correspondence run against Lean implementations of the primitives.",
+   note="Trusted: Lean kernel; extractor+harness; HMAC/SHA/RIPEMD, crypto/elliptic P-256, filippo edwards25519 (parameters in theorems; Lean oracles in the driver). Non-termination of the retry loops is modelled by fuel. F4 and F5 were found by this check and fixed in /repo."),
+ "C08": dict(ref="DESIGN.md §5 C02/C08",
+   technique="Lean 4 proof over an abstract cyclic group (Mathlib addOrderOf): private and public shift are both invalid or both succeed with matching results; same HMAC input and fingerprint on both sides; differential correspondence on both real curves at all algebraic corner cases",
+   text="partial (group assumed): for any curve operations that are the operations of a cyclic group of order n generated by the base point, every 0<k<n and every shift: PrivateKey.Shift and PublicKey.Shift both report ErrInvalidKey exactly when shift >= n or k+shift = 0 mod n, "
+        "else both succeed and point(shifted private) = shifted public; for non-hardened indices both sides feed HMAC the same input, hence the same candidate sequence, chain code and fingerprint. For secp256k1 the group-law hypothesis on Add/ScalarBaseMult is theorem C17 (given the group order).",
+   note="Trusted: Lean kernel, Mathlib; that <G> has order n on secp256k1 and P-256 and crypto/elliptic's P-256 are assumed; byte-level agreement and absence of panics at shift 0, k, n-k are observed by correspondence (F6 fixed the panics)."),
+ "C17": dict(ref="DESIGN.md §5 C17",
+   technique="Lean 4 + Mathlib proof: extended-Euclid inverse, ring-hom of the big.Int code into ZMod P, Jacobian add-2007-bl/dbl-2009-l incl. all special cases = Mathlib's Weierstrass group law, double-and-add = nsmul for every byte string; constants and source snapshot regenerated; differential correspondence",
+   text="Lean theorems (only hypothesis: P prime): for all representable points ((0,0) = identity, else reduced on-curve coordinates) Add, Double return the group sum/double of Mathlib's elliptic-curve group, never panic, results reduced and canonical, identity returned exactly as (0,0); "
+        "ScalarMult / ScalarBaseMult = (big-endian value of the bytes) • point for EVERY byte string incl. 0, >= n, leading zeros, and every base incl. the identity; IsOnCurve x y iff y^2 = x^3 + 7 in ZMod P; ModInverse never fails on a nonzero z.",
+   note="Trusted: Lean kernel; Mathlib (elliptic-curve group law); primality of P (hypothesis); math/big modelled on Int; extractor+harness. Both copies of secp256k1.go are required to be byte-identical by the tie. F6 was found by this check and fixed in /repo."),
 }
 PENDING = {}
